@@ -9,21 +9,25 @@ ID = 'C01'
 MODEL_TARGETS = ['theories/C01/Run.vo']
 PROOF_TARGETS = ['theories/C01/Properties.vo']
 PROPERTIES_V = 'theories/C01/Properties.v'
-IMPORTS = 'Require Import FV.Base.F64 FV.Base.PyVal FV.C01.Model FV.C01.Run.'
+IMPORTS = 'Require Import FV.Base.F64 FV.Base.PyVal FV.C01.Model FV.C01.FlavourDefs FV.C01.Run.'
 CASE_TYPE = 'case'
 CHECK = 'check_case'
 SHARD_SIZE = 250
 RULE = ('datatype trees (depth<=2 quick, <=3 thorough) from boundary catalogues x candidate values: drawn from the '
         'specification-side value set, single-position mutations of such values (limits +-ulp/+-tolerance, wrong '
         'lengths, None/missing/unknown members, lax base64, strings for numbers) and a malformed stream of every JSON '
-        'kind (+bytes, tuples, opaque objects), x previous values (None / valid value of the type); ops: __call__, '
+        'kind (+bytes, tuples, opaque objects), x previous values (None / valid value of the type); + candidates holding '
+        'frozen mappings (ImmutableDict at the top / as member / inside lists and tuples: a validated value offered again, '
+        'the result of a conversion d(value) with a position outside the limits, the validated value of an other struct '
+        'type, mutated values with some mappings frozen) for validate and __call__ of types containing a struct; ops: __call__, '
         'validate(value, previous), import_value, import_value+validate (as the dispatcher does); '
         'non-trivial = distinct (type, op, value, previous) whose type has a limit or is a container')
 ASSUMPTIONS = [
     'python float = IEEE-754 binary64 round-to-nearest-even (Flocq BinarySingleNaN 53 1024)',
     'int(<str|bytes>) and base64.b64decode are CPython library behaviour, supplied to the model as data per case',
     'generalConfig.lazy_number_validation = False (default)',
-    'candidate objects are builtin kinds (None,bool,int,float,str,bytes,list,tuple,dict with str keys) or opaque objects; '
+    'candidate objects are builtin kinds (None,bool,int,float,str,bytes,list,tuple,dict with str keys), '
+    'frappy.datatypes.ImmutableDict (flavour kept in the case: cval of C01/FlavourDefs.v) or opaque objects; '
     'objects implementing numeric/sequence protocols themselves (numpy arrays, EnumMember as number) are outside the model',
     'a non-empty list/tuple offered where a struct is expected is outside the model domain (checked by the oracle only)',
     'a previous value is None or a value as validate returns it (tuples, ImmutableDict at every depth, enum members)',
@@ -53,9 +57,79 @@ def _freeze(x):
     return x
 
 
+# ------------------------------------------------------------------ candidate container flavour
+# harness/dtgen.py (shared) tags every mapping as ['dict', items].  A candidate of C01 may in addition hold
+# ['frozen', items]: a frappy.datatypes.ImmutableDict with these items (what StructOf.__call__ / validate return and a
+# parameter holds) - at the top, as a member, or inside lists / tuples.
+def has_frozen(t):
+    k = t[0]
+    if k == 'frozen':
+        return True
+    if k in ('list', 'tuple'):
+        return any(has_frozen(x) for x in t[1])
+    if k == 'dict':
+        return any(has_frozen(x) for _, x in t[1])
+    return False
+
+
+def plain(t):
+    """the same tagged value with every frozen mapping as a plain dict (the form the shared helpers understand)"""
+    k = t[0]
+    if k in ('list', 'tuple'):
+        return [k, [plain(x) for x in t[1]]]
+    if k in ('dict', 'frozen'):
+        return ['dict', [[kk, plain(x)] for kk, x in t[1]]]
+    return t
+
+
+def cand_obj(t):
+    """tagged candidate -> the python object offered to the implementation (frozen -> a real ImmutableDict)"""
+    k = t[0]
+    if k == 'list':
+        return [cand_obj(x) for x in t[1]]
+    if k == 'tuple':
+        return tuple(cand_obj(x) for x in t[1])
+    if k in ('dict', 'frozen'):
+        items = {G.from_cps(kk): cand_obj(x) for kk, x in t[1]}
+        if k == 'frozen':
+            from frappy.datatypes import ImmutableDict
+            return ImmutableDict(items)
+        return items
+    return G.untag(t)
+
+
+def cand_val(case):
+    """the candidate as the specification side sees it (a frozen mapping is a mapping)"""
+    return G.untag(plain(case['v']))
+
+
+def gal_cval(t):
+    """Gallina term of type cval (coq/theories/C01/FlavourDefs.v)"""
+    if not has_frozen(t):
+        return f'(CLeaf {G.gal_val(t)})'
+    k = t[0]
+    if k in ('list', 'tuple'):
+        from harness import gal
+        return '(%s %s)' % ('CList' if k == 'list' else 'CTuple', gal.lst(t[1], gal_cval))
+    from harness import gal
+    return '(CDict %s %s)' % (gal.boolean(k == 'frozen'),
+                              gal.lst(t[1], lambda q: f'({G.gal_str(q[0])}, {gal_cval(q[1])})'))
+
+
+def freeze_tag(rng, t, p=1.0):
+    """every mapping of the tagged value becomes frozen with probability p (each one independently)"""
+    k = t[0]
+    if k in ('list', 'tuple'):
+        return [k, [freeze_tag(rng, x, p) for x in t[1]]]
+    if k in ('dict', 'frozen'):
+        return ['frozen' if (k == 'frozen' or p >= 1.0 or rng.random() < p) else 'dict',
+                [[kk, freeze_tag(rng, x, p)] for kk, x in t[1]]]
+    return t
+
+
 def run_case(case):
     dt = G.build(case['d'])
-    v = G.untag(case['v'])
+    v = cand_obj(case['v'])
     prev = _freeze(G.internalise(dt, case['d'], G.untag(case['prev'])))
     op = case['op']
     res2 = None
@@ -79,7 +153,7 @@ def run_case(case):
     except Exception as e:
         res = ['err', _exc_name(e)]
     return {'res': res, 'res2': res2, 'canon': canon, 'gd': G.gal_dtype(case['d'], dt), 'prev': G.tag(prev),
-            'env': G.pyenv_for([case['v'], case['prev']] + ([res[1]] if res[0] == 'ok' else []))}
+            'env': G.pyenv_for([plain(case['v']), case['prev']] + ([res[1]] if res[0] == 'ok' else []))}
 
 
 def canon_violation(d, r):
@@ -146,7 +220,7 @@ def encode(case, obs):
     op = {'call': 'OpCall', 'validate': 'OpValidate', 'import': 'OpImport', 'wire': 'OpWire'}[case['op']]
     o2 = 'None' if obs['res2'] is None else f'(Some {enc_res(obs["res2"])})'
     return ('{| c_env := %s; c_d := %s; c_op := %s; c_v := %s; c_prev := %s; c_obs := %s; c_obs2 := %s |}' % (
-        G.gal_pyenv(obs['env']), obs['gd'], op, G.gal_val(case['v']), G.gal_val(obs['prev']),
+        G.gal_pyenv(obs['env']), obs['gd'], op, gal_cval(case['v']), G.gal_val(obs['prev']),
         enc_res(obs['res']), o2))
 
 
@@ -340,7 +414,7 @@ def _norm(x):
 
 def oracle(case, obs):
     d, op = case['d'], case['op']
-    v, prev = G.untag(case['v']), G.untag(obs['prev'])
+    v, prev = cand_val(case), G.untag(obs['prev'])
     res = obs['res']
     fails = []
     if res[0] == 'err':
@@ -353,7 +427,11 @@ def oracle(case, obs):
     if op in ('validate', 'wire') and not in_set(d, r, why):
         fails.append({'class': 'out-of-set', 'what': f'{op}({v!r}, previous={prev!r}) on {d} returned {r!r}: {why[:1]}'})
     why = []
-    if op != 'call' and not denotes(d, v, r, prev, op, why):
+    try:
+        den = op == 'call' or denotes(d, v, r, prev, op, why)
+    except (AttributeError, TypeError, ValueError, KeyError, IndexError, OverflowError) as e:
+        den, why = False, [f'offered {v!r} returned {r!r}, which has not the shape of a value of the type ({e!r})']
+    if not den:
         fails.append({'class': 'reinterpreted', 'what': f'{op}: {why[:1]}'})
     if obs.get('canon'):
         fails.append({'class': 'not-canonical', 'what': f'{op}({v!r}) on {d} returned a non-canonical representation: {obs["canon"]}'})
@@ -406,7 +484,7 @@ def _rebuild(d, obj, tagged):
 
 # ------------------------------------------------------------------ known finding classes (narrow)
 def _pairs(case):
-    return list(positions(case['d'], G.untag(case['v'])))
+    return list(positions(case['d'], cand_val(case)))
 
 
 SCALARS = ('none', 'bool', 'int', 'float', 'opaque')
@@ -456,7 +534,7 @@ def f_array_truncated_to_previous(case, obs, f):
         if d['t'] == 'tuple' and isinstance(v, (list, tuple)) and isinstance(p, (list, tuple)):
             return any(walk(dd, x, q) for dd, x, q in zip(d['elems'], v, p))
         return False
-    return walk(case['d'], G.untag(case['v']), prev)
+    return walk(case['d'], cand_val(case), prev)
 
 
 def f_sequence_from_str_or_dict(case, obs, f):
@@ -469,7 +547,7 @@ def f_tuple_import_truncates(case, obs, f):
         if d['t'] == 'tuple' and isinstance(v, (list, tuple)) and len(v) > len(d['elems']):
             return True
         return any(walk(dd, x) for dd, x in _children(d, v))
-    return f['class'] == 'reinterpreted' and case['op'] in ('import', 'wire') and walk(case['d'], G.untag(case['v']))
+    return f['class'] == 'reinterpreted' and case['op'] in ('import', 'wire') and walk(case['d'], cand_val(case))
 
 
 def _children(d, v):
@@ -529,7 +607,8 @@ def nontrivial_key(case, obs):
 
 def outcome_labels(case, obs):
     r = obs['res']
-    return [case['op'], 'type:' + case['d']['t'], 'ok' if r[0] == 'ok' else r[1]]
+    return [case['op'], 'type:' + case['d']['t'], 'ok' if r[0] == 'ok' else r[1]] + \
+        (['frozen-candidate', 'frozen-candidate:' + ('ok' if r[0] == 'ok' else r[1])] if has_frozen(case['v']) else [])
 
 
 def sample_repr(case, obs):
@@ -540,9 +619,10 @@ def sample_repr(case, obs):
 def gen_cases(seed, tier):
     rng = random.Random(seed * 7919 + 1)
     n = {'quick': 5000, 'thorough': 120000, 'search': 60000}[tier]
+    nf = {'quick': 700, 'thorough': 15000, 'search': 10000}[tier]      # candidates holding frozen mappings
     depth = 2 if tier == 'quick' else 3
     cases = []
-    while len(cases) < n:
+    while len(cases) < n - nf:
         d = G.rand_type(rng, rng.randint(0, depth), client=rng.random() < 0.2)
         for _ in range(rng.randint(2, 6)):
             op = rng.choice(OPS)
@@ -561,6 +641,121 @@ def gen_cases(seed, tier):
             except (ValueError, IndexError, OverflowError):
                 continue
             cases.append({'d': d, 'op': op, 'v': G.tag(v), 'prev': G.tag(prev)})
+    cases = cases[:n - nf]
+    return cases + frozen_cases(random.Random(seed * 104729 + 7), nf, depth)
+
+
+def _has_struct(d):
+    t = d['t']
+    if t == 'struct':
+        return True
+    if t == 'array':
+        return _has_struct(d['elem'])
+    if t == 'tuple':
+        return any(_has_struct(x) for x in d['elems'])
+    return False
+
+
+def _out_of_limits(rng, d, v):
+    """v: a value of d in validated form; one position is pushed outside the limits, keeping the python type
+    (what a conversion d(value) lets through: __call__ converts, it does not check limits)"""
+    t = d['t']
+    if t == 'float':
+        a, b = G.dec_float(d['min']), G.dec_float(d['max'])
+        c = [x for x in (b + 1.0, a - 1.0, b + abs(b) + 10.0, a - abs(a) - 10.0, b * 5.0, 1e300, -1e300)
+             if x == x and not math.isinf(x) and not a <= x <= b]
+        return rng.choice(c) if c else v
+    if t == 'int':
+        return rng.choice([d['max'] + 1, d['min'] - 1, d['max'] + 1000])
+    if t == 'scaled':
+        s = G.dec_float(d['scale'])
+        return rng.choice([G.dec_float(d['max']) + 3 * s, G.dec_float(d['min']) - 3 * s, G.dec_float(d['max']) + 1000 * s])
+    if t == 'string':
+        return 'x' * (d['max'] + 1) if d['max'] < 50 else ('' if d['min'] > 0 else v)
+    if t == 'blob':
+        return b'x' * (d['max'] + 1) if d['max'] < 300 else v
+    if t == 'array':
+        if v and rng.random() < 0.8:
+            l = list(v)
+            i = rng.randrange(len(l))
+            l[i] = _out_of_limits(rng, d['elem'], l[i])
+            return tuple(l)
+        return tuple(v) + tuple(v[:1]) * (d['max'] + 1 - len(v)) if v and d['max'] < 6 else v
+    if t == 'tuple':
+        l = list(v)
+        i = rng.randrange(len(l))
+        l[i] = _out_of_limits(rng, d['elems'][i], l[i])
+        return tuple(l)
+    if t == 'struct' and v:
+        m = dict(d['members'])
+        k = rng.choice(list(v))
+        return dict(v, **{k: _out_of_limits(rng, m[k], v[k])})
+    return v
+
+
+def _other_struct(rng, d):
+    """a struct type different from d (d: a struct descriptor): same member names with other member types / limits,
+    or unrelated"""
+    if rng.random() < 0.5:
+        return {'t': 'struct', 'members': [[n, G.rand_type(rng, 0)] for n, _ in d['members']],
+                'optional': list(d['optional']), 'client': False}
+    d2 = G.rand_type(rng, 1)
+    while d2['t'] != 'struct':
+        d2 = G.rand_type(rng, 1)
+    return d2
+
+
+def _replace_struct(rng, d, v, todo):
+    """v in validated form of d; the first struct position met (random walk) is replaced by a validated value of an
+    other struct type"""
+    t = d['t']
+    if t == 'struct':
+        if todo[0] and (rng.random() < 0.7 or not any(_has_struct(x) for _, x in d['members'])):
+            todo[0] = False
+            return _valid_internal(rng, _other_struct(rng, d))
+        m = dict(d['members'])
+        return {k: _replace_struct(rng, m[k], x, todo) for k, x in v.items()}
+    if t == 'array':
+        return tuple(_replace_struct(rng, d['elem'], x, todo) for x in v)
+    if t == 'tuple':
+        return tuple(_replace_struct(rng, dd, x, todo) for dd, x in zip(d['elems'], v))
+    return v
+
+
+def frozen_cases(rng, n, depth):
+    """candidates that hold frozen mappings (ImmutableDict), offered to validate / __call__ of a type containing a
+    struct: (a) a validated value offered again, (b) the result of a conversion d(value) with a position outside the
+    limits, (c) the validated value of an other struct type, (d) mutated / malformed values with some mappings
+    frozen - at the top, as members and inside lists and tuples; previous value mostly None"""
+    cases = []
+    while len(cases) < n:
+        d = G.rand_type(rng, rng.randint(1, depth), client=rng.random() < 0.1)
+        if not _has_struct(d):
+            continue
+        for _ in range(rng.randint(3, 7)):
+            op = 'validate' if rng.random() < 0.8 else 'call'
+            r = rng.random()
+            try:
+                if r < 0.2:
+                    v = G.tag(_valid_internal(rng, d))
+                elif r < 0.5:
+                    v = G.tag(_out_of_limits(rng, d, _valid_internal(rng, d)))
+                elif r < 0.7:
+                    v = G.tag(_replace_struct(rng, d, _valid_internal(rng, d), [True]))
+                elif r < 0.85:
+                    v = G.tag(G.mutate(rng, d, G.rand_valid(rng, d, False), False))
+                else:
+                    v = G.tag(G.rand_valid(rng, d, False))
+                v = freeze_tag(rng, v, 1.0 if r < 0.7 or rng.random() < 0.5 else 0.6)
+                if rng.random() < 0.3 and v[0] == 'tuple':
+                    v = ['list', v[1]]                    # a list of frozen structs
+                prev = None
+                if op == 'validate' and rng.random() < 0.2:
+                    prev = _valid_internal(rng, d)
+            except (ValueError, IndexError, OverflowError):
+                continue
+            if has_frozen(v):
+                cases.append({'d': d, 'op': op, 'v': v, 'prev': G.tag(prev)})
     return cases[:n]
 
 
@@ -594,8 +789,10 @@ def shrink(case):
     if v[0] in ('list', 'tuple') and v[1]:
         for i in range(len(v[1])):
             yield dict(case, v=[v[0], v[1][:i] + v[1][i + 1:]])
-    if v[0] == 'dict' and v[1]:
+    if v[0] in ('dict', 'frozen') and v[1]:
         for i in range(len(v[1])):
             yield dict(case, v=[v[0], v[1][:i] + v[1][i + 1:]])
+    if v[0] in ('list', 'tuple') and len(v[1]) == 1 and case['d']['t'] == 'array' and case['d']['min'] <= 1:
+        yield dict(case, d=case['d']['elem'], v=v[1][0], prev=['none'])
     if case['prev'] != ['none']:
         yield dict(case, prev=['none'])
